@@ -799,10 +799,24 @@ def check_get_uid(ctx: Ctx, rule: str) -> None:
                 what='get_uid: the uid of the object wins whenever metadata has one (a presence test, not a truthiness test of something else); only otherwise the '
                      'composed fallback is used')
     # the fallback is composed of all five identifying fields of the event's object
-    lists = [n for n in walk_no_defs(f.node) if isinstance(n, (ast.List, ast.Tuple)) and len(n.elts) >= 3 and all(_get_chain(x) is not None for x in n.elts)]
+    def chain(x):
+        # follow single-assignment locals of the root: `metadata = raw_body['metadata']`, `raw_body = raw_event['object']`
+        c = _get_chain(x)
+        for _ in range(4):
+            if c is None or c[0] == ev or '.' in c[0]:
+                break
+            o = origin(f, ast.Name(id=c[0], ctx=ast.Load()), 1)
+            if isinstance(o, ast.Name) and o.id == c[0]:
+                break
+            oc = _get_chain(o)
+            if oc is None:
+                break
+            c = (oc[0], oc[1] + c[1])
+        return c
+    lists = [n for n in walk_no_defs(f.node) if isinstance(n, (ast.List, ast.Tuple)) and len(n.elts) >= 3 and all(chain(x) is not None for x in n.elts)]
     ctx.require_sites(rule, 'get_uid: the list of identifying fields of the fallback', len(lists), 1, f.loc())
     for n in lists:
-        got = {_get_chain(x) for x in n.elts}
+        got = {chain(x) for x in n.elts}
         want = {(ev, ('object', 'kind')), (ev, ('object', 'apiVersion')), (ev, ('object', 'metadata', 'name')), (ev, ('object', 'metadata', 'namespace')),
                 (ev, ('object', 'metadata', 'creationTimestamp'))}
         ctx.ob(rule, 'get_uid: without a uid the key is composed of kind, apiVersion, name, namespace and creationTimestamp of the event\'s object (objects of '
